@@ -16,6 +16,11 @@ structure Sys where
   canon : Nat → List Entry := fun _ => []
   /-- ghost history: (term, node, voters) for every election ever won -/
   elected : List (Nat × Nat × List Nat) := []
+  /-- ghost: the log the winner of each term held when it was elected -/
+  elog : Nat → List Entry := fun _ => []
+  /-- ghost history: (voter, term, candidate, the voter's log when it recorded the vote,
+      whether an election of that term had already been won at that moment) -/
+  voteLogs : List (Nat × Nat × Nat × List Entry × Bool) := []
 
 inductive Step where
   | timeout (i : Nat)
@@ -46,11 +51,21 @@ def route (c : Config) (dst src : Nat) (out : Option Msg) : List (Nat × Nat × 
   | some (.requestVote t cand li lt) => broadcast c dst (.requestVote t cand li lt)
   | some m => [(dst, src, m)]
 
+/-- the vote-log record of a transition (same trigger as `ghostOf`) -/
+def voteLogOf (s : Sys) (v : Nat) (nd nd' : Node) : List (Nat × Nat × Nat × List Entry × Bool) :=
+  if nd'.term = nd.term ∧ nd'.votedFor = nd.votedFor then []
+  else match nd'.votedFor with
+    | some cand => [(v, nd'.term, cand, nd.log, s.elected.any (fun x => x.1 == nd'.term))]
+    | none => []
+
 def setNode (s : Sys) (i : Nat) (nd' : Node) (nd : Node) (msgs : List (Nat × Nat × Msg)) : Sys :=
   { nodes := s.nodes.set i nd', net := s.net ++ msgs, ghost := s.ghost ++ ghostOf i nd nd',
     canon := if nd'.role = .leader then (fun t => if t = nd'.term then nd'.log else s.canon t) else s.canon,
     elected := if nd.role ≠ .leader ∧ nd'.role = .leader then s.elected ++ [(nd'.term, i, nd'.votes)]
-               else s.elected }
+               else s.elected,
+    elog := if nd.role ≠ .leader ∧ nd'.role = .leader then
+              (fun t => if t = nd'.term then nd'.log else s.elog t) else s.elog,
+    voteLogs := s.voteLogs ++ voteLogOf s i nd nd' }
 
 def sysStep (c : Config) (s : Sys) : Step → Sys
   | .timeout i =>
